@@ -292,6 +292,45 @@ func (h *hostile) perform(d *hdelivery) (string, map[string]interface{}, error) 
 			}
 			time.Sleep(2 * time.Millisecond)
 		}
+	case "cache":
+		// load from disk: the heads are found in the victim's own heads cache (a cache written by
+		// an earlier version, a damaged or tampered directory) when the database is reopened and
+		// loaded; there is no per-head check on this route, only the checks of the join
+		// the reference is what a restart yields WITHOUT the hostile heads (a restart by itself
+		// may drop entries, e.g. a genuine entry whose ancestor is rejected: Load joins a head's
+		// whole fetched log at once; that is not this property's business)
+		if err := c13Reopen(s, d.victim); err != nil {
+			return "", nil, err
+		}
+		if err := s.Stores[d.victim].Load(h.ctx, -1); err != nil {
+			extra["load_error_reference"] = err.Error()
+		}
+		if !s.Settle() {
+			h.r.AddDirect("hang:load", "store did not settle after Load", map[string]interface{}{"route": d.route, "state": sim.LastSettleState})
+		}
+		before = h.observe(d.victim)
+		mark = len(api.GetLog)
+		st := s.Stores[d.victim]
+		var cached []*entry.Entry
+		if raw, err := st.Cache().Get(h.ctx, datastoreKey("_remoteHeads")); err == nil {
+			_ = json.Unmarshal(raw, &cached)
+		}
+		for _, e := range d.heads {
+			cached = append(cached, clone(e))
+		}
+		raw, err := json.Marshal(cached)
+		if err != nil {
+			return "", nil, err
+		}
+		if err := st.Cache().Put(h.ctx, datastoreKey("_remoteHeads"), raw); err != nil {
+			return "", nil, err
+		}
+		if err := c13Reopen(s, d.victim); err != nil {
+			return "", nil, err
+		}
+		if err := s.Stores[d.victim].Load(h.ctx, -1); err != nil {
+			extra["load_error"] = err.Error()
+		}
 	default:
 		return "", nil, fmt.Errorf("unknown route %s", d.route)
 	}
@@ -474,7 +513,7 @@ func runC03(r *Run) error {
 	if r.Tier == "thorough" {
 		rounds = 12
 	}
-	routes := []string{"sync", "pubsub", "exchange", "ancestor"}
+	routes := []string{"sync", "pubsub", "exchange", "ancestor", "cache"}
 	ctx := context.Background()
 	for round := 0; round < rounds; round++ {
 		for ci, cfg := range configs {
@@ -624,7 +663,11 @@ func runC03(r *Run) error {
 					extra["forgery"] = kind
 					extra["sig"] = c03Sig(kind)
 					extra["write_list"] = h.wl
-					r.AddCase("(CRemote "+term+")", extra, true)
+					if route == "cache" {
+						r.AddCase("(CCached "+term+")", extra, true)
+					} else {
+						r.AddCase("(CRemote "+term+")", extra, true)
+					}
 					r.Count("remote:" + route)
 					r.Count("forgery:" + kind)
 					r.Count(fmt.Sprintf("merged=%v", extra["in_entries"].(bool) || extra["in_heads"].(bool)))
